@@ -1,7 +1,1116 @@
-/- C05: model not built yet (stub so that the per-property driver links). -/
+/-
+C05 — output files (LJH 2.2, LJH 3, OFF).
+
+* record encoders transcribed from `ljh/ljh.go` (`Writer.WriteRecord`, `Writer3.WriteRecord`) and
+  `off/off.go` (`Writer.WriteRecord`), and the record conversions of `DataPublisher.PublishData`;
+* INDEPENDENT parsers written from the documentation: `doc/LJH.md` (LJH 2.2 header grammar and
+  record layout), the LJH3 record description in `ljh/ljh.go`, the OFF layout comment of
+  `off/off.go` (both as it stood — `parseOFFComment`, the pre-0.3.0 record — and with the
+  pretrigger-delta field that 0.3.0 files carry — `parseOFF`);
+* headers: key/value text for LJH 2.2, a JSON-subset reader for LJH3/OFF, the binary
+  projector/basis block of OFF;
+* the file-writer state machine (header once, pending/flushed bytes, close flushes) and the
+  publisher (`start / publish / flush / pause / unpause / stop`).
+
+Bytes are `Nat`s (0..255) in lists; floats are opaque IEEE bit patterns.  Core Lean only.
+-/
 import DastardV.Proto
 namespace DastardV.C05
 
-def runLine (_ts : List String) : Verdict := .bad "C05: model not built yet"
+abbrev Bytes := List Nat
+
+/-- ASCII string literal as bytes -/
+def b (s : String) : Bytes := s.toList.map Char.toNat
+
+/-! ### little-endian integers -/
+
+/-- little-endian bytes of `n mod 256^w` -/
+def le : Nat → Nat → Bytes
+  | 0, _ => []
+  | w + 1, n => (n % 256) :: le w (n / 256)
+
+/-- value of little-endian bytes -/
+def unle : Bytes → Nat
+  | [] => 0
+  | x :: xs => x + 256 * unle xs
+
+/-- two's complement image of an `Int` in `w` bytes (Go's `uintN(x)` / `intN(x)` bit pattern) -/
+def twos (w : Nat) (x : Int) : Nat := (x % (256 ^ w : Nat)).toNat
+
+/-- signed reading of a `w`-byte image -/
+def toSigned (w : Nat) (n : Nat) : Int :=
+  if 2 * n < 256 ^ w then (n : Int) else (n : Int) - (256 ^ w : Nat)
+
+/-- every element as `w` little-endian bytes -/
+def leWords (w : Nat) : List Nat → Bytes
+  | [] => []
+  | x :: xs => le w x ++ leWords w xs
+
+/-- exactly `k` words of `w` bytes each -/
+def unWords (w : Nat) : Nat → Bytes → List Nat
+  | 0, _ => []
+  | k + 1, bs => unle (bs.take w) :: unWords w k (bs.drop w)
+
+/-! ### records as the writers receive them, and the encoders (transcribed from the Go code) -/
+
+/-- arguments of `ljh.Writer.WriteRecord` -/
+structure W22 where
+  frame : Int
+  ts : Int            -- POSIX microseconds
+  data : List Nat     -- 16-bit samples
+deriving Repr, DecidableEq
+
+/-- arguments of `ljh.Writer3.WriteRecord` -/
+structure W3 where
+  frs : Int           -- firstRisingSample
+  frame : Int
+  ts : Int
+  data : List Nat
+deriving Repr, DecidableEq
+
+/-- arguments of `off.Writer.WriteRecord`; float32 values are bit patterns -/
+structure WO where
+  nsamp : Int
+  npre : Int
+  frame : Int
+  ts : Int            -- nanoseconds
+  ptm : Nat
+  pd : Nat
+  resid : Nat
+  coefs : List Nat
+deriving Repr, DecidableEq
+
+/-- `ljh.Writer.WriteRecord`: subframe count (int64 arithmetic wraps), microsecond time, samples -/
+def encodeLJH22 (subdiv suboff : Int) (r : W22) : Bytes :=
+  le 8 (twos 8 (r.frame * subdiv + suboff)) ++ le 8 (twos 8 r.ts) ++ leWords 2 r.data
+
+/-- `ljh.Writer3.WriteRecord` -/
+def encodeLJH3 (r : W3) : Bytes :=
+  le 4 (twos 4 r.data.length) ++ le 4 (twos 4 r.frs) ++ le 8 (twos 8 r.frame) ++ le 8 (twos 8 r.ts) ++
+    leWords 2 r.data
+
+/-- `off.Writer.WriteRecord` (file format version 0.3.0) -/
+def encodeOFF (r : WO) : Bytes :=
+  le 4 (twos 4 r.nsamp) ++ le 4 (twos 4 r.npre) ++ le 8 (twos 8 r.frame) ++ le 8 (twos 8 r.ts) ++
+    le 4 r.ptm ++ le 4 r.pd ++ le 4 r.resid ++ leWords 4 r.coefs
+
+/-! ### what a reader must recover, and the doc-derived record parsers -/
+
+/-- LJH 2.2 record per doc/LJH.md: 8-byte subframe counter, 8-byte POSIX µs, L words of M bytes -/
+structure R22 where
+  subframe : Nat
+  timeUs : Nat
+  samples : List Nat
+deriving Repr, DecidableEq
+
+def parseLJH22 (L M : Nat) (bs : Bytes) : Option (R22 × Bytes) :=
+  if bs.length < 16 + L * M then none else
+  some ({ subframe := unle (bs.take 8), timeUs := unle ((bs.drop 8).take 8),
+          samples := unWords M L (bs.drop 16) }, bs.drop (16 + L * M))
+
+def expect22 (subdiv suboff : Int) (r : W22) : R22 :=
+  { subframe := twos 8 (r.frame * subdiv + suboff), timeUs := twos 8 r.ts,
+    samples := r.data.map (· % 65536) }
+
+/-- LJH3 record: int32 sample count, int32 first rising sample, int64 frame count, int64 POSIX µs,
+then that many 16-bit samples (variable length, self-delimiting) -/
+structure R3 where
+  nsamp : Nat
+  frs : Nat
+  frame : Nat
+  timeUs : Nat
+  samples : List Nat
+deriving Repr, DecidableEq
+
+def parseLJH3 (bs : Bytes) : Option (R3 × Bytes) :=
+  if bs.length < 24 then none else
+  let n := unle (bs.take 4)
+  if 2 ^ 31 ≤ n then none else            -- a negative int32 length
+  if bs.length < 24 + 2 * n then none else
+  some ({ nsamp := n, frs := unle ((bs.drop 4).take 4), frame := unle ((bs.drop 8).take 8),
+          timeUs := unle ((bs.drop 16).take 8), samples := unWords 2 n (bs.drop 24) },
+        bs.drop (24 + 2 * n))
+
+def expect3 (r : W3) : R3 :=
+  { nsamp := r.data.length, frs := twos 4 r.frs, frame := twos 8 r.frame, timeUs := twos 8 r.ts,
+    samples := r.data.map (· % 65536) }
+
+/-- OFF record, version 0.3.0: the layout comment of off/off.go plus the float32 `pretriggerDelta`
+that the 0.3.0 writer puts at bytes 28-31 (residual at 32, coefficients from 36) -/
+structure ROff where
+  nsamp : Nat
+  npre : Nat
+  frame : Nat
+  timeNs : Nat
+  ptm : Nat
+  pdelta : Nat
+  resid : Nat
+  coefs : List Nat
+deriving Repr, DecidableEq
+
+def parseOFF (nb : Nat) (bs : Bytes) : Option (ROff × Bytes) :=
+  if bs.length < 36 + 4 * nb then none else
+  some ({ nsamp := unle (bs.take 4), npre := unle ((bs.drop 4).take 4),
+          frame := unle ((bs.drop 8).take 8), timeNs := unle ((bs.drop 16).take 8),
+          ptm := unle ((bs.drop 24).take 4), pdelta := unle ((bs.drop 28).take 4),
+          resid := unle ((bs.drop 32).take 4), coefs := unWords 4 nb (bs.drop 36) },
+        bs.drop (36 + 4 * nb))
+
+def expectOFF (r : WO) : ROff :=
+  { nsamp := twos 4 r.nsamp, npre := twos 4 r.npre, frame := twos 8 r.frame, timeNs := twos 8 r.ts,
+    ptm := r.ptm % 2 ^ 32, pdelta := r.pd % 2 ^ 32, resid := r.resid % 2 ^ 32,
+    coefs := r.coefs.map (· % 2 ^ 32) }
+
+/-- the record exactly as the layout comment at the top of off/off.go described it before it was
+corrected (the pre-0.3.0 record: residual at 28, coefficients from 32, `Z = 31+4*NumberOfBases`) -/
+def parseOFFComment (nb : Nat) (bs : Bytes) : Option (ROff × Bytes) :=
+  if bs.length < 32 + 4 * nb then none else
+  some ({ nsamp := unle (bs.take 4), npre := unle ((bs.drop 4).take 4),
+          frame := unle ((bs.drop 8).take 8), timeNs := unle ((bs.drop 16).take 8),
+          ptm := unle ((bs.drop 24).take 4), pdelta := 0,
+          resid := unle ((bs.drop 28).take 4), coefs := unWords 4 nb (bs.drop 32) },
+        bs.drop (32 + 4 * nb))
+
+/-- a body is a sequence of records up to the end of the file; a trailing partial record is an error -/
+def parseMany {α} (pr : Bytes → Option (α × Bytes)) : Nat → Bytes → Option (List α)
+  | _, [] => some []
+  | 0, _ :: _ => none
+  | fuel + 1, x :: xs =>
+    match pr (x :: xs) with
+    | none => none
+    | some (a, rest) =>
+      match parseMany pr fuel rest with
+      | none => none
+      | some as => some (a :: as)
+
+def parseBody {α} (pr : Bytes → Option (α × Bytes)) (bs : Bytes) : Option (List α) :=
+  parseMany pr bs.length bs
+
+/-! ### what `PublishData` hands to each writer -/
+
+/-- the fields of a `DataRecord` that reach a file; float32 values already converted (bit patterns) -/
+structure Rec where
+  npre : Int
+  frame : Int
+  timeNs : Int
+  ptm : Nat
+  pd : Nat
+  resid : Nat
+  data : List Nat
+  coefs : List Nat
+deriving Repr, DecidableEq
+
+def toW22 (r : Rec) : W22 := { frame := r.frame, ts := r.timeNs.tdiv 1000, data := r.data }
+def toW3 (r : Rec) : W3 := { frs := r.npre + 1, frame := r.frame, ts := r.timeNs.tdiv 1000, data := r.data }
+def toWO (r : Rec) : WO :=
+  { nsamp := r.data.length, npre := r.npre, frame := r.frame, ts := r.timeNs,
+    ptm := r.ptm, pd := r.pd, resid := r.resid, coefs := r.coefs }
+
+/-! ### one output format as the publisher sees it, the file writer and the publisher -/
+
+structure Fmt (ρ : Type) where
+  header : Bytes
+  accept : ρ → Bool             -- WriteRecord returns nil
+  enc : ρ → Bytes
+  stopAtReject : Bool           -- PublishData returns the writer's error (OFF) instead of ignoring it (LJH 2.2)
+
+/-- the records of one `PublishData` batch that reach the writer and are accepted by it -/
+def taken {ρ} (F : Fmt ρ) (batch : List ρ) : List ρ :=
+  if F.stopAtReject then batch.takeWhile F.accept else batch.filter F.accept
+
+/-- does `PublishData` return this writer's error for the batch? -/
+def batchErr {ρ} (F : Fmt ρ) (batch : List ρ) : Bool :=
+  F.stopAtReject && batch.any (fun r => !F.accept r)
+
+/-- an output file behind the asynchronous buffered writer -/
+structure FileSt where
+  created : Bool := false
+  hdr : Bool := false           -- HeaderWritten
+  disk : Bytes := []            -- bytes that reached the file
+  pending : Bytes := []         -- bytes queued / buffered, not yet in the file
+  closed : Bool := false
+deriving Repr, DecidableEq
+
+def FileSt.write (f : FileSt) (bs : Bytes) : FileSt := { f with pending := f.pending ++ bs }
+def FileSt.flush (f : FileSt) : FileSt := { f with disk := f.disk ++ f.pending, pending := [] }
+/-- `Close`: the asynchronous writer drains its queue and flushes, then the file is closed -/
+def FileSt.close (f : FileSt) : FileSt := { f.flush with closed := true }
+
+inductive Phase where
+  | idle | active | stopped
+deriving Repr, DecidableEq
+
+/-- one format's view of a `DataPublisher` -/
+structure PubSt where
+  phase : Phase := .idle
+  sel : Bool := false           -- this format's writer is set
+  paused : Bool := false        -- `WritingPaused`
+  f : FileSt := {}
+deriving Repr, DecidableEq
+
+inductive Op (ρ : Type) where
+  | start (sel : Bool) (resetPause : Bool)   -- Set<format> calls of START; LJH 2.2/3 setters clear the pause flag
+  | publish (batch : List ρ)
+  | flush
+  | pause
+  | unpause
+  | stop
+
+def step {ρ} (F : Fmt ρ) (s : PubSt) : Op ρ → PubSt
+  | .start sel reset =>
+    if s.phase = .idle then
+      { s with phase := .active, sel := sel, paused := if reset then false else s.paused }
+    else s
+  | .publish batch =>
+    -- PublishData: nothing for an empty batch, while paused, or without a writer
+    if s.phase = .active ∧ s.sel ∧ !s.paused ∧ !batch.isEmpty then
+      let f1 := if s.f.hdr then s.f else { (s.f.write F.header) with created := true, hdr := true }
+      { s with f := f1.write ((taken F batch).flatMap F.enc) }
+    else s
+  | .flush => if s.phase = .active ∧ s.sel ∧ s.f.created then { s with f := s.f.flush } else s
+  | .pause => { s with paused := true, f := if s.phase = .active ∧ s.sel ∧ s.f.created then s.f.flush else s.f }
+  | .unpause => { s with paused := false, f := if s.phase = .active ∧ s.sel ∧ s.f.created then s.f.flush else s.f }
+  | .stop =>
+    if s.phase = .active then
+      { s with phase := .stopped, f := if s.sel ∧ s.f.created then s.f.close else s.f }
+    else s
+
+def run {ρ} (F : Fmt ρ) (s : PubSt) (ops : List (Op ρ)) : PubSt := ops.foldl (step F) s
+
+/-- the file after STOP: `none` when it was never created -/
+def fileOf (s : PubSt) : Option Bytes := if s.f.created then some s.f.disk else none
+
+/-! #### the specification side: which records were accepted while active and unpaused -/
+
+structure Ctl where
+  phase : Phase := .idle
+  sel : Bool := false
+  paused : Bool := false
+deriving Repr, DecidableEq
+
+def ctlStep {ρ} (c : Ctl) : Op ρ → Ctl
+  | .start sel reset =>
+    if c.phase = .idle then { phase := .active, sel := sel, paused := if reset then false else c.paused } else c
+  | .publish _ => c
+  | .flush => c
+  | .pause => { c with paused := true }
+  | .unpause => { c with paused := false }
+  | .stop => if c.phase = .active then { c with phase := .stopped } else c
+
+def writing (c : Ctl) : Bool := c.phase = .active ∧ c.sel ∧ !c.paused
+
+/-- records accepted for the file, in order -/
+def accepted {ρ} (F : Fmt ρ) : Ctl → List (Op ρ) → List ρ
+  | _, [] => []
+  | c, .publish batch :: ops =>
+    (if writing c then taken F batch else []) ++ accepted F (ctlStep c (.publish batch)) ops
+  | c, op :: ops => accepted F (ctlStep c op) ops
+
+/-- was any non-empty batch published while writing (the file is created lazily by the first one) -/
+def touched {ρ} : Ctl → List (Op ρ) → Bool
+  | _, [] => false
+  | c, .publish batch :: ops => (writing c && !batch.isEmpty) || touched (ctlStep c (.publish batch)) ops
+  | c, op :: ops => touched (ctlStep c op) ops
+
+/-! ### channel parameters and headers -/
+
+structure Params where
+  ci : Int
+  npre : Int
+  nsamp : Int
+  fps : Int
+  tbBits : Nat
+  tsoff : Int
+  nrows : Int
+  ncols : Int
+  nchans : Int
+  subdiv : Int
+  row : Int
+  col : Int
+  suboff : Int
+  chnum : Int
+  px : Int
+  py : Int
+  src : Bytes
+  chname : Bytes
+  pxname : Bytes
+  dver : Bytes
+  ghash : Bytes
+  desc : Bytes
+  projR : Nat
+  projC : Nat
+  proj : List Nat
+  basR : Nat
+  basC : Nat
+  bas : List Nat
+deriving Repr
+
+/-- decimal text of a natural number / an integer (`%d`) -/
+def decNat (n : Nat) : Bytes := (Nat.toDigits 10 n).map Char.toNat
+def decInt (i : Int) : Bytes :=
+  match i with
+  | .ofNat n => decNat n
+  | .negSucc n => 45 :: decNat (n + 1)
+
+/-- Go `int` arithmetic wraps at 64 bits -/
+def wrap64 (x : Int) : Int := toSigned 8 (twos 8 x)
+
+/-- a header value: literal text, or a field whose text comes from Go's float / date formatting -/
+inductive HV where
+  | txt (v : Bytes)
+  | sci (bits : Nat)       -- `%e` of a float64
+  | secs (ns : Int)        -- `%.6f` of float64(ns)/1e9
+  | date                   -- a formatted date (not compared)
+deriving Repr
+
+/-- the key doc/LJH.md defines for the word size ("Capitalization must be matched") -/
+def docWordSizeKey : Bytes := b "Digitized Word Size in Bytes"
+
+/-- the key `ljh.Writer.WriteHeader` writes (before the fix recorded in known_findings.jsonl it was
+`Digitized Word Size In Bytes`, which a reader following the document does not find) -/
+def wordSizeKey : Bytes := b "Digitized Word Size in Bytes"
+
+/-- `ljh.Writer.WriteHeader`: the `Key: value` lines between the first line and `#End of Header` -/
+def header22 (p : Params) : List (Bytes × HV) :=
+  [ (b "Save File Format Version", .txt (b "2.2.1")),
+    (b "Software Version", .txt (b "DASTARD version " ++ p.dver)),
+    (b "Software Git Hash", .txt p.ghash),
+    (b "Data source", .txt p.src),
+    (b "Number of rows", .txt (decInt p.nrows)),
+    (b "Number of columns", .txt (decInt p.ncols)),
+    (b "Row number (from 0-" ++ decInt (wrap64 (p.nrows - 1)) ++ b " inclusive)", .txt (decInt p.row)),
+    (b "Column number (from 0-" ++ decInt (wrap64 (p.ncols - 1)) ++ b " inclusive)", .txt (decInt p.col)),
+    (b "Number of channels", .txt (decInt p.nchans)),
+    (b "Channel name", .txt p.chname),
+    (b "Channel", .txt (decInt p.chnum)),
+    (b "ChannelIndex (in dastard)", .txt (decInt p.ci)),
+    (b "Subframe divisions", .txt (decInt p.subdiv)),
+    (b "Subframe offset", .txt (decInt p.suboff)),
+    (wordSizeKey, .txt (b "2")),
+    (b "Presamples", .txt (decInt p.npre)),
+    (b "Total Samples", .txt (decInt p.nsamp)),
+    (b "Number of samples per point", .txt (decInt p.fps)),
+    (b "Timestamp offset (s)", .secs p.tsoff),
+    (b "Server Start Time", .date),
+    (b "First Record Time", .date),
+    (b "Pixel X Position", .txt (decInt p.px)),
+    (b "Pixel Y Position", .txt (decInt p.py)),
+    (b "Pixel Name", .txt p.pxname),
+    (b "Timebase", .sci p.tbBits) ]
+
+def magic22 : Bytes := b "#LJH Memorial File Format"
+def endTag22 : Bytes := b "#End of Header"
+
+/-- the header text for given value texts -/
+def renderHeader22 (kvs : List (Bytes × Bytes)) : Bytes :=
+  magic22 ++ [10] ++ kvs.flatMap (fun kv => kv.1 ++ [58, 32] ++ kv.2 ++ [10]) ++ endTag22 ++ [10]
+
+/-! #### LJH 2.2 header reader written from doc/LJH.md
+
+`Key: value`, one pair per line; lines end with LF, CR or CRLF; one space follows the colon and
+further spaces belong to the value; `#End of Header` ends the header; other lines starting with `#`
+and lines without `: ` are ignored; capitalisation must match. -/
+
+/-- read one line: (line, rest after its terminator); `none` when no terminator is left -/
+def readLine : Bytes → Option (Bytes × Bytes)
+  | [] => none
+  | 10 :: rest => some ([], rest)
+  | 13 :: 10 :: rest => some ([], rest)
+  | 13 :: rest => some ([], rest)
+  | c :: rest =>
+    match readLine rest with
+    | none => none
+    | some (l, r) => some (c :: l, r)
+
+/-- split at the first `": "` -/
+def splitKV : Bytes → Option (Bytes × Bytes)
+  | [] => none
+  | 58 :: 32 :: v => some ([], v)
+  | c :: rest =>
+    match splitKV rest with
+    | none => none
+    | some (k, v) => some (c :: k, v)
+
+def headerLines : Nat → Bytes → Option (List (Bytes × Bytes) × Bytes)
+  | 0, _ => none
+  | fuel + 1, bs =>
+    match readLine bs with
+    | none => none
+    | some (line, rest) =>
+      if line = endTag22 then some ([], rest) else
+      match headerLines fuel rest with
+      | none => none
+      | some (kvs, body) =>
+        if line.head? = some 35 then some (kvs, body) else
+        match splitKV line with
+        | none => some (kvs, body)
+        | some kv => some (kv :: kvs, body)
+
+def parseHeader22 (bs : Bytes) : Option (List (Bytes × Bytes) × Bytes) :=
+  match readLine bs with
+  | none => none
+  | some (l, rest) => if l = magic22 then headerLines bs.length rest else none
+
+def lookup (k : Bytes) : List (Bytes × Bytes) → Option Bytes
+  | [] => none
+  | (k', v) :: r => if k' = k then some v else lookup k r
+
+/-! #### exact decimal arithmetic for the numeric header texts -/
+
+/-- a rational as numerator / positive denominator -/
+structure Q where
+  num : Int
+  den : Nat
+deriving Repr
+
+def Q.sub (a c : Q) : Q := { num := a.num * c.den - c.num * a.den, den := a.den * c.den }
+def Q.abs (a : Q) : Q := { a with num := a.num.natAbs }
+def Q.add (a c : Q) : Q := { num := a.num * c.den + c.num * a.den, den := a.den * c.den }
+def Q.le (a c : Q) : Bool := a.num * c.den ≤ c.num * a.den
+def Q.pow2 (e : Int) : Q := if e ≥ 0 then { num := 2 ^ e.toNat, den := 1 } else { num := 1, den := 2 ^ (-e).toNat }
+def Q.pow10 (e : Int) : Q := if e ≥ 0 then { num := 10 ^ e.toNat, den := 1 } else { num := 1, den := 10 ^ (-e).toNat }
+def Q.mul (a c : Q) : Q := { num := a.num * c.num, den := a.den * c.den }
+
+/-- exact value of a finite float64 bit pattern, and its unit in the last place -/
+def f64Value (bits : Nat) : Option (Q × Q) :=
+  let e : Nat := bits / 2 ^ 52 % 2048
+  let m : Nat := bits % 2 ^ 52
+  let neg : Bool := bits / 2 ^ 63 % 2 == 1
+  if e = 2047 then none else
+  let mant : Int := if e = 0 then (m : Int) else ((2 ^ 52 + m : Nat) : Int)
+  let ex : Int := (if e = 0 then 1 else (e : Int)) - 1075
+  let v := Q.mul { num := if neg then -mant else mant, den := 1 } (Q.pow2 ex)
+  some (v, Q.pow2 ex)
+
+def digitsVal : Bytes → Option Nat
+  | [] => some 0
+  | ds => ds.foldl (fun acc c => match acc with
+      | none => none
+      | some a => if 48 ≤ c ∧ c ≤ 57 then some (a * 10 + (c - 48)) else none) (some 0)
+
+/-- decimal text `[-]ddd[.ddd][e[+-]dd]` → (exact value, one unit of the last printed digit) -/
+def decValue (t : Bytes) : Option (Q × Q) :=
+  let (neg, t) := match t with
+    | 45 :: r => (true, r)
+    | r => (false, r)
+  let mant := t.takeWhile (fun c => c ≠ 101 ∧ c ≠ 69)
+  let ex := (t.dropWhile (fun c => c ≠ 101 ∧ c ≠ 69)).drop 1
+  let ip := mant.takeWhile (· ≠ 46)
+  let fp := (mant.dropWhile (· ≠ 46)).drop 1
+  if ip.isEmpty then none else
+  let exv : Option Int := match ex with
+    | [] => some 0
+    | 45 :: r => if r.isEmpty then none else (digitsVal r).map (fun n => -(n : Int))
+    | 43 :: r => if r.isEmpty then none else (digitsVal r).map (fun n => (n : Int))
+    | r => (digitsVal r).map (fun n => (n : Int))
+  match digitsVal (ip ++ fp), exv with
+  | some m, some e =>
+    let sc := Q.pow10 (e - fp.length)
+    some (Q.mul { num := if neg then -(m : Int) else m, den := 1 } sc, sc)
+  | _, _ => none
+
+/-- printed text `t` states float64 `bits` to within half a unit of its last printed digit, or —
+for shortest round-trip output — to within half a unit in the last place of the double -/
+def textStatesF64 (t : Bytes) (bits : Nat) : Bool :=
+  match decValue t, f64Value bits with
+  | some (q, u), some (v, ulp) =>
+    let d := (q.sub v).abs
+    Q.le (Q.add d d) u || Q.le (Q.add d d) ulp
+  | _, _ => false
+
+/-- `%.6f` of `float64(ns)/1e9`: within half a printed unit plus the two float64 roundings -/
+def textStatesSecs (t : Bytes) (ns : Int) : Bool :=
+  match decValue t with
+  | some (q, u) =>
+    let v : Q := { num := ns, den := 1000000000 }
+    let d := (q.sub v).abs
+    Q.le (Q.add d d) (Q.add u (Q.mul (Q.mul v.abs (Q.pow2 (-52))) { num := 2, den := 1 }))
+  | none => false
+
+def hvMatches (e : HV) (t : Bytes) : Bool :=
+  match e with
+  | .txt v => v == t
+  | .sci bits => textStatesF64 t bits
+  | .secs ns => textStatesSecs t ns
+  | .date => true
+
+/-- field-wise comparison of a parsed LJH 2.2 header with the expected one, in order -/
+def kvsMatch : List (Bytes × HV) → List (Bytes × Bytes) → Bool
+  | [], [] => true
+  | (k, e) :: es, (k', t) :: ts => k == k' && hvMatches e t && kvsMatch es ts
+  | _, _ => false
+
+/-! #### JSON subset reader (objects, arrays, strings, numbers as text, literals) -/
+
+inductive J where
+  | str (s : Bytes)
+  | num (raw : Bytes)
+  | lit (s : Bytes)
+  | arr (xs : List J)
+  | obj (kvs : List (Bytes × J))
+deriving Repr
+
+def isWs (c : Nat) : Bool := c = 32 || c = 10 || c = 13 || c = 9
+
+def skipWs : Bytes → Bytes
+  | [] => []
+  | c :: r => if isWs c then skipWs r else c :: r
+
+def hexVal (c : Nat) : Option Nat :=
+  if 48 ≤ c ∧ c ≤ 57 then some (c - 48)
+  else if 97 ≤ c ∧ c ≤ 102 then some (c - 87)
+  else if 65 ≤ c ∧ c ≤ 70 then some (c - 55)
+  else none
+
+/-- string body after the opening quote → (unescaped bytes, rest after the closing quote) -/
+def jString : Nat → Bytes → Option (Bytes × Bytes)
+  | 0, _ => none
+  | _ + 1, [] => none
+  | _ + 1, 34 :: r => some ([], r)
+  | f + 1, 92 :: 117 :: a :: b' :: c :: d :: r =>
+    match hexVal a, hexVal b', hexVal c, hexVal d with
+    | some a, some b', some c, some d =>
+      let cp := ((a * 16 + b') * 16 + c) * 16 + d
+      if cp < 128 then (jString f r).map (fun (s, t) => (cp :: s, t)) else none
+    | _, _, _, _ => none
+  | f + 1, 92 :: e :: r =>
+    let ch : Option Nat := match e with
+      | 34 => some 34 | 92 => some 92 | 47 => some 47 | 98 => some 8 | 102 => some 12
+      | 110 => some 10 | 114 => some 13 | 116 => some 9 | _ => none
+    match ch with
+    | none => none
+    | some ch => (jString f r).map (fun (s, t) => (ch :: s, t))
+  | f + 1, c :: r => if c < 32 then none else (jString f r).map (fun (s, t) => (c :: s, t))
+
+def isNumChar (c : Nat) : Bool := (48 ≤ c && c ≤ 57) || c = 45 || c = 43 || c = 46 || c = 101 || c = 69
+
+def isAlpha (c : Nat) : Bool := 97 ≤ c && c ≤ 122
+
+mutual
+  /-- one JSON value (leading white space allowed) → (value, rest) -/
+  def jValue : Nat → Bytes → Option (J × Bytes)
+    | 0, _ => none
+    | f + 1, bs =>
+      match skipWs bs with
+      | [] => none
+      | 34 :: r => (jString (r.length + 1) r).map (fun (s, t) => (J.str s, t))
+      | 123 :: r =>
+        match skipWs r with
+        | 125 :: t => some (J.obj [], t)
+        | r' => (jMembers f r').map (fun (kvs, t) => (J.obj kvs, t))
+      | 91 :: r =>
+        match skipWs r with
+        | 93 :: t => some (J.arr [], t)
+        | r' => (jElems f r').map (fun (xs, t) => (J.arr xs, t))
+      | c :: r =>
+        if isNumChar c then
+          some (J.num ((c :: r).takeWhile isNumChar), (c :: r).dropWhile isNumChar)
+        else if isAlpha c then
+          some (J.lit ((c :: r).takeWhile isAlpha), (c :: r).dropWhile isAlpha)
+        else none
+  /-- `"key": value (, "key": value)* }` -/
+  def jMembers : Nat → Bytes → Option (List (Bytes × J) × Bytes)
+    | 0, _ => none
+    | f + 1, bs =>
+      match skipWs bs with
+      | 34 :: r =>
+        match jString (r.length + 1) r with
+        | none => none
+        | some (k, t) =>
+          match skipWs t with
+          | 58 :: t' =>
+            match jValue f t' with
+            | none => none
+            | some (v, t'') =>
+              match skipWs t'' with
+              | 44 :: u => (jMembers f u).map (fun (kvs, w) => ((k, v) :: kvs, w))
+              | 125 :: u => some ([(k, v)], u)
+              | _ => none
+          | _ => none
+      | _ => none
+  /-- `value (, value)* ]` -/
+  def jElems : Nat → Bytes → Option (List J × Bytes)
+    | 0, _ => none
+    | f + 1, bs =>
+      match jValue f bs with
+      | none => none
+      | some (v, t) =>
+        match skipWs t with
+        | 44 :: u => (jElems f u).map (fun (xs, w) => (v :: xs, w))
+        | 93 :: u => some ([v], u)
+        | _ => none
+end
+
+/-- a JSON header: one object at the start of the file, followed by exactly one newline -/
+def parseJsonHeader (bs : Bytes) : Option (J × Bytes) :=
+  match jValue (bs.length + 1) bs with
+  | some (J.obj kvs, 10 :: rest) => some (J.obj kvs, rest)
+  | _ => none
+
+def J.get (k : Bytes) : J → Option J
+  | .obj kvs => (kvs.find? (fun kv => kv.1 == k)).map (·.2)
+  | _ => none
+
+def J.path : List Bytes → J → Option J
+  | [], j => some j
+  | k :: ks, j => match j.get k with
+    | none => none
+    | some v => J.path ks v
+
+/-- expectation tree for a JSON header -/
+inductive JE where
+  | str (s : Bytes)
+  | int (i : Int)
+  | f64 (bits : Nat)
+  | any
+  | obj (kvs : List (Bytes × JE))
+
+mutual
+  def jMatch : JE → J → Bool
+    | .str s, .str t => s == t
+    | .int i, .num raw => raw == decInt i
+    | .f64 bits, .num raw => textStatesF64 raw bits
+    | .any, _ => true
+    | .obj es, .obj kvs => jMatchKVs es kvs
+    | _, _ => false
+  def jMatchKVs : List (Bytes × JE) → List (Bytes × J) → Bool
+    | [], [] => true
+    | (k, e) :: es, (k', v) :: kvs => k == k' && jMatch e v && jMatchKVs es kvs
+    | _, _ => false
+end
+
+/-- `ljh.Writer3.WriteHeader`; `row`/`col` are what the writer's Row/Column fields hold -/
+def header3 (p : Params) (row col : Int) : JE :=
+  .obj [ (b "frameperiod", .f64 p.tbBits),
+         (b "File Format", .str (b "LJH3")),
+         (b "File Format Version", .str (b "3.0.0")),
+         (b "TDM", .obj [ (b "NumberOfRows", .int p.nrows), (b "NumberOfColumns", .int p.ncols),
+                          (b "SubframeDivisions", .int p.subdiv), (b "Row", .int row),
+                          (b "Column", .int col), (b "SubframeOffset", .int p.suboff) ]) ]
+
+def savedAs : Bytes :=
+  b "float64 binary data after header and before records. projectors first then basis, nbytes = rows*cols*8 for each projectors and basis"
+
+/-- `off.Writer.WriteHeader` (JSON part) -/
+def headerOff (p : Params) : JE :=
+  .obj [ (b "ChannelIndex", .int p.ci), (b "ChannelName", .str p.chname),
+         (b "ChannelNumberMatchingName", .int p.chnum),
+         (b "MaxPresamples", .int p.npre), (b "MaxSamples", .int p.nsamp),
+         (b "FramePeriodSeconds", .f64 p.tbBits),
+         (b "FileFormat", .str (b "OFF")), (b "FileFormatVersion", .str (b "0.3.0")),
+         (b "NumberOfBases", .int p.projR),
+         (b "ModelInfo", .obj [
+            (b "Projectors", .obj [ (b "Rows", .int p.projR), (b "Cols", .int p.projC), (b "SavedAs", .str savedAs) ]),
+            (b "Basis", .obj [ (b "Rows", .int p.basR), (b "Cols", .int p.basC), (b "SavedAs", .str savedAs) ]),
+            (b "Description", .str p.desc) ]),
+         (b "CreationInfo", .obj [ (b "DastardVersion", .str p.dver), (b "GitHash", .str p.ghash),
+                                   (b "SourceName", .str p.src), (b "CreationTime", .any) ]),
+         (b "ReadoutInfo", .obj [ (b "NumberOfRows", .int p.nrows), (b "NumberOfColumns", .int p.ncols),
+                                  (b "NumberOfChans", .int p.nchans), (b "SubframeDivisions", .int p.subdiv),
+                                  (b "ColumnNum", .int p.col), (b "RowNum", .int p.row),
+                                  (b "SubframeOffset", .int p.suboff) ]),
+         (b "PixelInfo", .obj [ (b "XPosition", .int p.px), (b "YPosition", .int p.py), (b "Name", .str p.pxname) ]) ]
+
+/-- the binary block of an OFF header: projectors then basis, row-major float64 -/
+def offMatrixBlock (proj bas : List Nat) : Bytes := leWords 8 proj ++ leWords 8 bas
+
+/-- read it back, given the shapes stated in the JSON part -/
+def parseOffMatrices (pr pc br bc : Nat) (bs : Bytes) : Option (List Nat × List Nat × Bytes) :=
+  if bs.length < 8 * (pr * pc) + 8 * (br * bc) then none else
+  some (unWords 8 (pr * pc) bs, unWords 8 (br * bc) (bs.drop (8 * (pr * pc))),
+        bs.drop (8 * (pr * pc) + 8 * (br * bc)))
+
+def J.natAt (j : J) (path : List Bytes) : Option Nat :=
+  match j.path path with
+  | some (.num raw) => if raw.isEmpty then none else digitsVal raw
+  | _ => none
+
+/-! ### the three concrete formats of a channel -/
+
+def fmt22 (p : Params) (hdr : Bytes) : Fmt W22 :=
+  { header := hdr, accept := fun r => (r.data.length : Int) == p.nsamp,
+    enc := encodeLJH22 p.subdiv p.suboff, stopAtReject := false }
+
+def fmt3 (hdr : Bytes) : Fmt W3 :=
+  { header := hdr, accept := fun _ => true, enc := encodeLJH3, stopAtReject := false }
+
+def fmtOff (p : Params) (hdr : Bytes) : Fmt WO :=
+  { header := hdr, accept := fun r => r.coefs.length == p.projR, enc := encodeOFF, stopAtReject := true }
+
+/-! ### oracle: the property's statement evaluated on a file -/
+
+inductive Mode where
+  | dir22 | dir3 | diroff | pub | wc
+deriving Repr, DecidableEq
+
+/-- LJH 2.2 file against the expected header fields and the accepted records.  Returns the clause that fails. -/
+def chk22 (p : Params) (recs : List W22) (file : Bytes) : Option String :=
+  match parseHeader22 file with
+  | none => some "C05:ljh22-header-unparsable the header does not follow the key/value grammar of doc/LJH.md"
+  | some (kvs, body) =>
+    match lookup docWordSizeKey kvs with
+    | none => some "C05:ljh22-wordsize-key the header has no `Digitized Word Size in Bytes` key (doc/LJH.md: capitalization must be matched)"
+    | some ws =>
+    match digitsVal ws, lookup (b "Total Samples") kvs with
+    | some M, some lt =>
+      if ws.isEmpty || lt != decInt p.nsamp then some "C05:ljh22-header-length Total Samples is not the channel's record length" else
+      -- every documented key states the channel's value
+      let want := (header22 p).filter (fun kv => kv.1 != wordSizeKey)
+      let bad := want.filter (fun (k, e) => match lookup k kvs with
+        | none => true
+        | some t => !hvMatches e t)
+      match bad with
+      | (k, _) :: _ =>
+        some ("C05:ljh22-header-field " ++ String.ofList (k.map Char.ofNat) ++ " does not state the channel's value")
+      | [] =>
+      match parseBody (parseLJH22 p.nsamp.toNat M) body with
+      | none => some "C05:ljh22-body-partial the body is not a whole number of records of 16+L*M bytes"
+      | some rs =>
+        if rs != recs.map (expect22 p.subdiv p.suboff) then
+          some "C05:ljh22-body-records the parsed records are not the accepted records"
+        else if body.length != recs.length * (16 + p.nsamp.toNat * M) then
+          some "C05:ljh22-length file length is not header + sum of record sizes"
+        else none
+    | _, _ => some "C05:ljh22-header-length Total Samples / word size missing or not a number"
+
+def chk3 (p : Params) (rowcol : Option (Int × Int)) (recs : List W3) (file : Bytes) : Option String :=
+  match parseJsonHeader file with
+  | none => some "C05:ljh3-header-unparsable the file does not start with a JSON object followed by one newline"
+  | some (j, body) =>
+    let fld (path : List Bytes) (e : JE) : Bool := match j.path path with
+      | some v => jMatch e v
+      | none => false
+    if !(fld [b "File Format"] (.str (b "LJH3")) && fld [b "frameperiod"] (.f64 p.tbBits)) then
+      some "C05:ljh3-header-field format name or frame period does not state the channel's value"
+    else if !(fld [b "TDM", b "NumberOfRows"] (.int p.nrows) && fld [b "TDM", b "NumberOfColumns"] (.int p.ncols) &&
+              fld [b "TDM", b "SubframeDivisions"] (.int p.subdiv) && fld [b "TDM", b "SubframeOffset"] (.int p.suboff)) then
+      some "C05:ljh3-header-field a TDM geometry / sub-frame field does not state the channel's value"
+    else if (match rowcol with
+        | some (r, c) => !(fld [b "TDM", b "Row"] (.int r) && fld [b "TDM", b "Column"] (.int c))
+        | none => false) then
+      some "C05:ljh3-header-rowcol TDM Row/Column are not the channel's row and column"
+    else
+    match parseBody parseLJH3 body with
+    | none => some "C05:ljh3-body-partial the body is not a sequence of whole LJH3 records"
+    | some rs =>
+      if rs != recs.map expect3 then some "C05:ljh3-body-records the parsed records are not the accepted records"
+      else if body.length != (recs.map (fun r => 24 + 2 * r.data.length)).sum then
+        some "C05:ljh3-length file length is not header + sum of record sizes"
+      else none
+
+def chkOff (p : Params) (recs : List WO) (file : Bytes) : Option String :=
+  match parseJsonHeader file with
+  | none => some "C05:off-header-unparsable the file does not start with a JSON object followed by one newline"
+  | some (j, rest) =>
+    let fld (path : List Bytes) (e : JE) : Bool := match j.path path with
+      | some v => jMatch e v
+      | none => false
+    if !(fld [b "FileFormat"] (.str (b "OFF")) && fld [b "FramePeriodSeconds"] (.f64 p.tbBits) &&
+         fld [b "MaxPresamples"] (.int p.npre) && fld [b "MaxSamples"] (.int p.nsamp) &&
+         fld [b "ChannelIndex"] (.int p.ci) && fld [b "ChannelName"] (.str p.chname) &&
+         fld [b "ChannelNumberMatchingName"] (.int p.chnum) && fld [b "NumberOfBases"] (.int p.projR)) then
+      some "C05:off-header-field record length / time base / channel identity / number of bases does not state the channel's value"
+    else if !(fld [b "ReadoutInfo"] (.obj [ (b "NumberOfRows", .int p.nrows), (b "NumberOfColumns", .int p.ncols),
+                (b "NumberOfChans", .int p.nchans), (b "SubframeDivisions", .int p.subdiv),
+                (b "ColumnNum", .int p.col), (b "RowNum", .int p.row), (b "SubframeOffset", .int p.suboff) ])) then
+      some "C05:off-header-field ReadoutInfo does not state the channel's geometry"
+    else
+    match j.natAt [b "ModelInfo", b "Projectors", b "Rows"], j.natAt [b "ModelInfo", b "Projectors", b "Cols"],
+          j.natAt [b "ModelInfo", b "Basis", b "Rows"], j.natAt [b "ModelInfo", b "Basis", b "Cols"],
+          j.natAt [b "NumberOfBases"] with
+    | some pr, some pc, some br, some bc, some nb =>
+      match parseOffMatrices pr pc br bc rest with
+      | none => some "C05:off-matrices-short the binary projector/basis block is shorter than the header states"
+      | some (pm, bm, body) =>
+        if !(pr == p.projR && pc == p.projC && br == p.basR && bc == p.basC && pm == p.proj && bm == p.bas) then
+          some "C05:off-matrices the projector / basis block is not the channel's matrices"
+        else
+        match parseBody (parseOFF nb) body with
+        | none => some "C05:off-body-partial the body is not a whole number of records of 36+4*NumberOfBases bytes"
+        | some rs =>
+          if rs != recs.map expectOFF then
+            -- classify: does the file follow the (stale) layout comment instead?
+            some "C05:off-body-records the parsed records are not the accepted records"
+          else if body.length != recs.length * (36 + 4 * nb) then
+            some "C05:off-length file length is not header + sum of record sizes"
+          else none
+    | _, _, _, _, _ => some "C05:off-header-field matrix shapes missing from ModelInfo"
+
+/-! ### driver -/
+
+inductive POp where
+  | c | h | f | x | z | u
+  | s (sel : Nat)
+  | w22 (r : W22)
+  | w3 (r : W3)
+  | wo (r : WO)
+  | p (batch : List Rec)
+deriving Repr
+
+def be16s : Bytes → List Nat
+  | a :: c :: r => (a * 256 + c) :: be16s r
+  | _ => []
+
+open P in
+def pData : P (List Nat) := do
+  let bs ← bytes
+  pure (be16s bs)
+
+open P in
+def pParams : P Params := do
+  let ci ← int; let npre ← int; let nsamp ← int; let fps ← int
+  let tbBits ← nat; let tsoff ← int
+  let nrows ← int; let ncols ← int; let nchans ← int; let subdiv ← int
+  let row ← int; let col ← int; let suboff ← int; let chnum ← int; let px ← int; let py ← int
+  let src ← bytes; let chname ← bytes; let pxname ← bytes; let dver ← bytes; let ghash ← bytes; let desc ← bytes
+  kw "proj"; let projR ← nat; let projC ← nat; let proj ← list nat
+  kw "basis"; let basR ← nat; let basC ← nat; let bas ← list nat
+  pure { ci, npre, nsamp, fps, tbBits, tsoff, nrows, ncols, nchans, subdiv, row, col, suboff, chnum, px, py,
+         src, chname, pxname, dver, ghash, desc, projR, projC, proj, basR, basC, bas }
+
+open P in
+def pRec : P Rec := do
+  kw "R"
+  let npre ← int; let frame ← int; let timeNs ← int
+  let ptm ← nat; let pd ← nat; let resid ← nat
+  let data ← pData
+  let coefs ← list nat
+  pure { npre, frame, timeNs, ptm, pd, resid, data, coefs }
+
+open P in
+def pOp : P POp := do
+  let t ← tok
+  match t with
+  | "C" => pure .c
+  | "H" => pure .h
+  | "F" => pure .f
+  | "X" => pure .x
+  | "Z" => pure .z
+  | "U" => pure .u
+  | "S" => do let s ← nat; pure (.s s)
+  | "W22" => do
+    let frame ← int; let ts ← int; let data ← pData
+    pure (.w22 { frame, ts, data })
+  | "W3" => do
+    let frs ← int; let frame ← int; let ts ← int; let data ← pData
+    pure (.w3 { frs, frame, ts, data })
+  | "WO" => do
+    let nsamp ← int; let npre ← int; let frame ← int; let ts ← int
+    let ptm ← nat; let pd ← nat; let resid ← nat; let coefs ← list nat
+    pure (.wo { nsamp, npre, frame, ts, ptm, pd, resid, coefs })
+  | "P" => do
+    let batch ← list pRec
+    pure (.p batch)
+  | _ => fail s!"bad op {t}"
+
+open P in
+def pFile : P (Option Bytes) := do
+  let t ← peek
+  if t == some "A" then
+    let _ ← tok
+    pure none
+  else
+    let bs ← bytes
+    pure (some bs)
+
+structure Case where
+  mode : Mode
+  p : Params
+  ops : List POp
+  res : String
+  f22 : Option Bytes
+  f3 : Option Bytes
+  foff : Option Bytes
+
+open P in
+def pCase : P Case := do
+  let m ← tok
+  let mode ← match m with
+    | "dir22" => pure Mode.dir22
+    | "dir3" => pure Mode.dir3
+    | "diroff" => pure Mode.diroff
+    | "pub" => pure Mode.pub
+    | "wc" => pure Mode.wc
+    | _ => fail s!"bad mode {m}"
+  kw "P"; let p ← pParams
+  kw "OPS"; let ops ← list pOp
+  kw "OUT"; kw "res"; let res ← tok
+  kw "f22"; let f22 ← pFile
+  kw "f3"; let f3 ← pFile
+  kw "foff"; let foff ← pFile
+  pure { mode, p, ops, res, f22, f3, foff }
+
+/-- a direct writer driven by `C H (W|F|H)* X`: (result bits, file, accepted records) -/
+def runDirect {ρ} (F : Fmt ρ) (refuseSecondHeader : Bool) (ops : List (Option (Option ρ) × Char)) :
+    String × FileSt × List ρ :=
+  ops.foldl (fun (acc : String × FileSt × List ρ) op =>
+    let (res, f, recs) := acc
+    match op.2, op.1 with
+    | 'C', _ => (res.push '0', { f with created := true }, recs)
+    | 'H', _ =>
+      if f.hdr && refuseSecondHeader then (res.push '1', f, recs)
+      else (res.push '0', { (f.write F.header) with hdr := true }, recs)
+    | 'F', _ => (res, f.flush, recs)
+    | 'X', _ => (res, f.close, recs)
+    | 'W', some (some r) =>
+      if F.accept r then (res.push '0', f.write (F.enc r), recs ++ [r]) else (res.push '1', f, recs)
+    | _, _ => (res, f, recs)) ("", {}, [])
+
+/-- project the case's ops for one format of the publisher -/
+def projOps {ρ} (conv : Rec → ρ) (bit : Nat) (ops : List POp) : List (Op ρ) :=
+  ops.filterMap (fun o => match o with
+    | .s sel => some (.start (sel / bit % 2 = 1) (sel % 2 = 1 || sel / 2 % 2 = 1))
+    | .p batch => some (.publish (batch.map conv))
+    | .f => some .flush
+    | .z => some .pause
+    | .u => some .unpause
+    | .x => some .stop
+    | _ => none)
+
+def splitHeader22 (file : Bytes) : Bytes :=
+  match parseHeader22 file with
+  | some (_, body) => file.take (file.length - body.length)
+  | none => []
+
+def splitHeaderJson (file : Bytes) : Bytes :=
+  match parseJsonHeader file with
+  | some (_, body) => file.take (file.length - body.length)
+  | none => []
+
+def fileTag (name : String) (f : Option Bytes) (n : Nat) : List String :=
+  match f with
+  | none => [name ++ "-absent"]
+  | some _ => [name, if n = 0 then name ++ "-empty" else if n ≥ 100 then name ++ "-100+" else name ++ "-records"]
+
+/-- header comparison of model and implementation (field-wise) for the three formats -/
+def hdr22Agrees (p : Params) (file : Bytes) : Bool :=
+  match parseHeader22 file with
+  | some (kvs, _) => kvsMatch (header22 p) kvs
+  | none => false
+
+def hdr3Agrees (p : Params) (row col : Int) (file : Bytes) : Bool :=
+  match parseJsonHeader file with
+  | some (j, _) => jMatch (header3 p row col) j
+  | none => false
+
+def hdrOffAgrees (p : Params) (file : Bytes) : Bool :=
+  match parseJsonHeader file with
+  | some (j, rest) => jMatch (headerOff p) j && rest.take (8 * (p.proj.length + p.bas.length)) == offMatrixBlock p.proj p.bas
+  | none => false
+
+def offHeaderLen (p : Params) (file : Bytes) : Bytes :=
+  (splitHeaderJson file) ++ offMatrixBlock p.proj p.bas
+
+/-- judge one file: oracle first (the property on the implementation's bytes), then model = implementation -/
+def judge {ρ} (name : String) (implFile : Option Bytes) (modelFile : Option Bytes) (hdrLen : Nat)
+    (oracle : Bytes → Option String) (hdrAgrees : Bytes → Bool) (nrec : Nat) (_recs : List ρ) : Except Verdict (List String) :=
+  match implFile, modelFile with
+  | none, none => .ok (fileTag name none 0)
+  | some file, some mf =>
+    match oracle file with
+    | some clause => .error (.viol clause)
+    | none =>
+      if !hdrAgrees file then .error (.diff (name ++ " header fields differ from the model's header"))
+      else if file.drop hdrLen != mf.drop hdrLen || file.length != mf.length then
+        .error (.diff (name ++ " body bytes differ from the model's file"))
+      else .ok (fileTag name (some file) nrec)
+  | some _, none => .error (.viol ("C05:" ++ name ++ "-file-unexpected a file exists although no record was accepted while writing was active and unpaused"))
+  | none, some _ => .error (.viol ("C05:" ++ name ++ "-file-missing no file although records were accepted while writing was active and unpaused"))
+
+def opsTags (ops : List POp) : List String :=
+  (if ops.any (fun o => match o with | .f => true | _ => false) then ["flush"] else []) ++
+  (if ops.any (fun o => match o with | .z => true | _ => false) then ["pause"] else []) ++
+  (if ops.any (fun o => match o with | .u => true | _ => false) then ["unpause"] else [])
+
+def runCase (c : Case) : Verdict :=
+  let p := c.p
+  match c.mode with
+  | .dir22 =>
+    let implHdr := (c.f22.map splitHeader22).getD []
+    let F := fmt22 p implHdr
+    let dops := c.ops.map (fun o => match o with
+      | .c => (none, 'C') | .h => (none, 'H') | .f => (none, 'F') | .x => (none, 'X')
+      | .w22 r => (some (some r), 'W') | _ => (none, '?'))
+    let (res, f, recs) := runDirect F false dops
+    match judge "ljh22" c.f22 (some f.disk) implHdr.length (chk22 p recs) (hdr22Agrees p) recs.length recs with
+    | .error v => v
+    | .ok tags =>
+      if res != c.res then .diff s!"WriteRecord results {c.res} differ from the model's {res}"
+      else .ok (["dir22"] ++ tags ++ opsTags c.ops ++ (if res.contains '1' then ["rejected"] else []))
+  | .dir3 =>
+    let implHdr := (c.f3.map splitHeaderJson).getD []
+    let F := fmt3 implHdr
+    let dops := c.ops.map (fun o => match o with
+      | .c => (none, 'C') | .h => (none, 'H') | .f => (none, 'F') | .x => (none, 'X')
+      | .w3 r => (some (some r), 'W') | _ => (none, '?'))
+    let (res, f, recs) := runDirect F true dops
+    match judge "ljh3" c.f3 (some f.disk) implHdr.length (chk3 p (some (p.row, p.col)) recs) (hdr3Agrees p p.row p.col) recs.length recs with
+    | .error v => v
+    | .ok tags =>
+      if res != c.res then .diff s!"WriteRecord results {c.res} differ from the model's {res}"
+      else .ok (["dir3"] ++ tags ++ opsTags c.ops ++ (if res.contains '1' then ["rejected"] else []))
+  | .diroff =>
+    let implHdr := (c.foff.map (offHeaderLen p)).getD []
+    let F := fmtOff p implHdr
+    let dops := c.ops.map (fun o => match o with
+      | .c => (none, 'C') | .h => (none, 'H') | .f => (none, 'F') | .x => (none, 'X')
+      | .wo r => (some (some r), 'W') | _ => (none, '?'))
+    let (res, f, recs) := runDirect F true dops
+    match judge "off" c.foff (some f.disk) implHdr.length (chkOff p recs) (hdrOffAgrees p) recs.length recs with
+    | .error v => v
+    | .ok tags =>
+      if res != c.res then .diff s!"WriteRecord results {c.res} differ from the model's {res}"
+      else .ok (["diroff"] ++ tags ++ opsTags c.ops ++ (if res.contains '1' then ["rejected"] else []))
+  | mode =>
+    -- publisher: three format machines over the same history
+    let h22 := (c.f22.map splitHeader22).getD []
+    let h3 := (c.f3.map splitHeaderJson).getD []
+    let hoff := (c.foff.map (offHeaderLen p)).getD []
+    let F22 := fmt22 p h22
+    let F3 := fmt3 h3
+    let FO := fmtOff p hoff
+    let o22 := projOps toW22 1 c.ops
+    let o3 := projOps toW3 2 c.ops
+    let oo := projOps toWO 4 c.ops
+    let s22 := run F22 {} o22
+    let s3 := run F3 {} o3
+    let so := run FO {} oo
+    let a22 := accepted F22 {} o22
+    let a3 := accepted F3 {} o3
+    let ao := accepted FO {} oo
+    -- PublishData's result per publish op: the OFF writer's refusal, when OFF is writing
+    let res := (c.ops.foldl (fun (acc : String × Ctl) o =>
+      let (s, ctl) := acc
+      match o with
+      | .p batch =>
+        let e := writing ctl && batchErr FO (batch.map toWO)
+        (s.push (if e then '1' else '0'), ctl)
+      | .s sel => (s, ctlStep (ρ := WO) ctl (.start (sel / 4 % 2 = 1) (sel % 2 = 1 || sel / 2 % 2 = 1)))
+      | .z => (s, ctlStep (ρ := WO) ctl .pause)
+      | .u => (s, ctlStep (ρ := WO) ctl .unpause)
+      | .x => (s, ctlStep (ρ := WO) ctl .stop)
+      | _ => (s, ctl)) ("", ({} : Ctl))).1
+    let res := if res.isEmpty then "-" else res
+    -- SetLJH3 has no row/column parameters: through the publisher alone the LJH3 writer's Row/Column stay 0;
+    -- writeControlStart fills them in from the channel's row/column code
+    let rc3 : Int × Int := if mode = .wc then (p.row, p.col) else (0, 0)
+    let orc3 : Option (Int × Int) := if mode = .wc then some (p.row, p.col) else none
+    match judge "ljh22" c.f22 (fileOf s22) h22.length (chk22 p a22) (hdr22Agrees p) a22.length a22 with
+    | .error v => v
+    | .ok t22 =>
+    match judge "ljh3" c.f3 (fileOf s3) h3.length (chk3 p orc3 a3) (hdr3Agrees p rc3.1 rc3.2) a3.length a3 with
+    | .error v => v
+    | .ok t3 =>
+    match judge "off" c.foff (fileOf so) hoff.length (chkOff p ao) (hdrOffAgrees p) ao.length ao with
+    | .error v => v
+    | .ok toff =>
+      if res != c.res then .diff s!"PublishData results {c.res} differ from the model's {res}"
+      else .ok ([if mode = .wc then "wc" else "pub"] ++ t22 ++ t3 ++ toff ++ opsTags c.ops ++
+                (if res.contains '1' then ["off-refused"] else []))
+
+def runLine (ts : List String) : Verdict :=
+  match P.run pCase ts with
+  | .error e => .bad e
+  | .ok c => runCase c
 
 end DastardV.C05
